@@ -14,7 +14,8 @@ HOLDER = T.Holder(6)
 UNASSIGNED = T.make_unassigned_cell()
 
 FUNCS = {
-    'plain': T.plain, 'posonly': T.posonly, 'kwonly': T.kwonly, 'clo': CLO, 'only_c2': ONLY_C2,
+    'plain': T.plain, 'posonly': T.posonly, 'kwonly': T.kwonly, 'kwonly_required': T.kwonly_required,
+    'lam_kwonly': (lambda a, *, k, m: (a, k, m) if a > k else (m, k, a)), 'clo': CLO, 'only_c2': ONLY_C2,
     'lam': LAM, 'loop0': LOOPFS[0], 'loop2': LOOPFS[2], 'unassigned': UNASSIGNED,
     'decorated': T.decorated.__wrapped_fn__, 'meth_unbound': T.Holder.meth,
 }
@@ -40,6 +41,9 @@ SHAPES = {
               (2, ('c',)), (2, ('b',)), (1, ('zz',)), (2, ('zz',))],
     'posonly': [(0, ('d',)), (1, ('d',)), (2, ('d',)), (3, ('d', 'e')), (5, ('d',)), (1, ()),
                 (1, ('d', 'zz')), (1, ('a', 'd')), (2, ('b', 'd')), (1, ('c', 'd')), (4, ('c', 'd'))],
+    'kwonly_required': [(1, ('factor', 'offset')), (1, ('factor',)), (1, ()), (0, ('x', 'factor', 'offset')),
+                        (1, ('offset',)), (2, ('offset',)), (1, ('factor', 'offset', 'zz'))],
+    'lam_kwonly': [(1, ('k', 'm')), (1, ('k',)), (1, ()), (0, ('a', 'k', 'm'))],
     'kwonly': [(0, ('k',)), (0, ('k', 'm')), (0, ()), (1, ('k',)), (0, ('m',)), (0, ('k', 'zz'))],
     'clo': [(1, ()), (2, ()), (1, ('k',)), (3, ()), (0, ('a', 'b', 'k')), (0, ()), (1, ('b', 'k'))],
     'only_c2': [(1, ()), (0, ('a',)), (2, ())],
